@@ -238,8 +238,8 @@ Qed.
    *Client complete in [begin_op] with RErr in the same way; a client whose chain ends in a
    hook resolved to nil reaches [cwalk_nil], also RErr.) *)
 Definition null_released_error_stmt : Prop :=
-  forall fixed g t th recv c cl g',
-    nth_error (threads g) t = Some th -> t_pc th = CLock (KCall recv) c ->
+  forall fixed g t th recv abn c cl g',
+    nth_error (threads g) t = Some th -> t_pc th = CLock (KCall recv abn) c ->
     get_client g c = Some cl -> c_h cl = None ->
     step fixed g t = Some g' ->
     events g' = events g /\ hooks g' = hooks g /\
@@ -247,7 +247,7 @@ Definition null_released_error_stmt : Prop :=
 
 Theorem null_released_error : null_released_error_stmt.
 Proof.
-  unfold null_released_error_stmt, step. intros fixed g t th recv c cl g' Hth Hpc Hc Hh Hs.
+  unfold null_released_error_stmt, step. intros fixed g t th recv abn c cl g' Hth Hpc Hc Hh Hs.
   rewrite Hth, Hpc, Hc in Hs.
   destruct (c_mu cl) eqn:Hmu; [discriminate|].
   inversion Hs; subst g'; clear Hs.
@@ -300,7 +300,7 @@ Qed.
 
 (* a thread about to lock a hook mutex is enabled *)
 Lemma en_hook_pc : forall t th, nth_error (threads g) t = Some th ->
-  (match t_pc th with CWalk _ _ _ | WWalk _ _ _ | CallFin _ _ | FMark _ _ _ | InCall _ => True | _ => False end) ->
+  (match t_pc th with CWalk _ _ _ | WWalk _ _ _ | CallFin _ _ | FMark _ _ _ | InCall _ _ => True | _ => False end) ->
   exists g', step true g t = Some g'.
 Proof.
   intros t th Hth Hk. pose proof (W t th Hth) as Wt. unfold step. rewrite Hth.
